@@ -213,3 +213,103 @@ def check_reset_cover(ck, prog, rule, table):
                       fn, fld[1], rec, w, ", ".join(sorted(writers[fld]))[:80], "ies" if len(writers[fld]) == 1 else "y"),
                   key="%s:%s:%s" % (rule.split("-", 1)[1], fn, fld[1]))
     return n
+
+
+NONFATAL = ("LZMA_OK", "LZMA_STREAM_END", "LZMA_NO_CHECK", "LZMA_UNSUPPORTED_CHECK", "LZMA_GET_CHECK",
+            "LZMA_SEEK_NEEDED", "LZMA_TIMED_OUT")
+
+
+def check_init_once(ck, prog, rule, files=None):
+    """In a resumable coder function a nested coder is initialised in some state S.  After a non-fatal return
+    (LZMA_OK, LZMA_*_CHECK, LZMA_SEEK_NEEDED ...) the function is entered again in whatever state coder->sequence names:
+    if the sequence was not advanced after the successful initialisation, the nested coder is initialised again (its
+    state is lost, the notification repeats forever)."""
+    from sa import resume
+    from .oblig import graph_for
+    n = 0
+    for f in sorted(prog.all_functions("liblzma"), key=lambda f: (f.file, f.line)):
+        if not f.blocks:
+            continue
+        base = f.file.rsplit("/", 1)[-1]
+        if files is not None and base not in files:
+            continue
+        try:
+            sw = resume.Resume(prog, f).find_switch()
+        except Exception:
+            sw = None
+        if not sw:
+            continue
+        sites = []
+        for b, i, e in f.iter_elems():
+            for c in ex.calls(e, into_refs=False):
+                nm = c.get("fn") or ""
+                if nm.endswith("_init") and nm.startswith("lzma_") and c["args"] and \
+                        "coder->" in ex.show(c["args"][0]) and \
+                        any(g.ret.startswith("lzma_ret") for g in prog.functions.get(nm, [])):
+                    sites.append((b, i, c, nm))
+        if not sites:
+            continue
+        m = graph_for(prog, f, (), {}, None, False, resume=False)
+        g = m.g
+        nonfatal = {m.rets[x] for x in NONFATAL if x in m.rets}
+        seq_blocks = {b.id for b, i, e in f.iter_elems() for (l, r, op, nd) in ex.writes(e)
+                      if ex.show(l).endswith("->sequence")}
+        for (b, i, c, nm) in sites:
+            gs, _sites = guard.find_res(f, nm, ("LZMA_OK",), prog)
+            gs = [x for x in gs]
+            n += 1
+            ck.saw_function(f)
+            # sequence stored later in the same block as the call?
+            later = any(ex.show(l).endswith("->sequence") for j in range(i + 1, len(b.elems)) if b.elems[j] is not None
+                        for (l, r, op, nd) in ex.writes(b.elems[j]))
+            if later:
+                ck.ob(rule, "%s:%s" % (f.name, nm), True, common.where(f, c),
+                      "%s: coder->sequence is advanced right after %s()" % (f.name, nm), key="%s:%s:%s" % (
+                          rule.split("-", 1)[1], f.name, nm))
+                continue
+            # product nodes that can be reached from the entry without a store to coder->sequence
+            unadv = set()
+            st = [nd for nd in m.entry_nodes() if nd in g.nodes]
+            while st:
+                nd = st.pop()
+                if nd in unadv:
+                    continue
+                unadv.add(nd)
+                if nd[0] in seq_blocks:
+                    continue
+                for (dst, label) in g.succ.get(nd, ()):
+                    if label != "resume" and dst not in unadv:
+                        st.append(dst)
+            unadv = {nd for nd in unadv if nd[0] not in seq_blocks}
+            src = []
+            if gs:
+                for x in gs:
+                    for node in [nd for nd in unadv if nd[0] == x.bid]:
+                        for (dst, label) in g.succ.get(node, ()):
+                            if label == x.pass_label:
+                                src.append(dst)
+            else:
+                # result returned directly / not tested: every successor of the call block
+                for node in [nd for nd in unadv if nd[0] == b.id]:
+                    for (dst, label) in g.succ.get(node, ()):
+                        src.append(dst)
+            if gs and not any(nd[0] == b.id for nd in unadv):
+                src = []
+
+            def dstp(node):
+                if node[0] != f.exit:
+                    return None
+                rv = g.get(node[1], "$ret")
+                if rv is None:
+                    return "return <unknown>"
+                hit = set(rv) & nonfatal
+                return ("return " + ",".join(m.retnames[v] for v in sorted(hit))) if hit else None
+            path, hit = guard.cut_reach(g, src, set(), dstp, cut_blocks=seq_blocks)
+            ck.ob(rule, "%s:%s" % (f.name, nm), path is None, common.where(f, c),
+                  "%s: after a successful %s() every non-fatal return has passed a store to coder->sequence" % (f.name, nm)
+                  if path is None else
+                  "%s(): after %s() succeeded, `%s` is reachable (path %s) with coder->sequence unchanged: the next "
+                  "lzma_code() call runs the same state again and initialises the nested coder a second time" % (
+                      f.name, nm, hit, m.describe_path(path)),
+                  key="%s:%s:%s" % (rule.split("-", 1)[1], f.name, nm))
+    return n
